@@ -207,6 +207,7 @@ def gen_op(rng, sh, stamped, projected):
             s = 1.0 + (1 if rng.random() < .5 else -1) * 10.0**rng.uniform(-8, -3)
         T[:3, :3] *= s
         op["T"] = T
+        op["flag_propagate"] = bool(rng.random() < .25)
     elif name == "scale":
         op["s"] = float(10.0**rng.uniform(-0.3, 0.3))
         if rng.random() < .15:
@@ -289,7 +290,11 @@ def apply_op(run, case, real, sh, op, stamped, state, step):
         run.hit("degenerate transformation accepted (copy dropped, not judged)")
         return real, sh
     if name == "tl" or name == "sim":
-        real.transform(np.array(op["T"], dtype=float))
+        if op.get("flag_propagate"):
+            # (the propagation flag concerns right-hand-side transformations only; tools pass it along anyway)
+            real.transform(np.array(op["T"], dtype=float), right_mul=False, propagate=True)
+        else:
+            real.transform(np.array(op["T"], dtype=float))
         sh.transform_left(op["T"])
     elif name == "tr":
         real.transform(np.array(op["T"], dtype=float), right_mul=True)
